@@ -154,9 +154,95 @@ C08ok(E, tags, q) ==
      /\ \A p \in Pos(E) : E[p].ev = "postcall" => PosOf(E, "postret", E[p].task) # 0                   \* every post() returned
      /\ Cardinality(AbortCalls(E)) = Cardinality(AbortRets(E))                                          \* every abort() returned
 
+\* ---------------------------------------------------------------- C18: the to_vec future
+\* events: poll(k = "pending" | "ready" | "err", v = items coded 1ab.. | error payload) of a minimal executor, emitcall of the source thread
+Polls(E) == { p \in Pos(E) : E[p].ev = "poll" }
+C18ok(E, q) ==
+  LET done == { p \in Polls(E) : E[p].k \in {"ready", "err"} }
+      term == { p \in Pos(E) : E[p].ev = "emitcall" /\ E[p].k \in {"e", "c"} }
+      items == Emitted(E, 1)
+  IN /\ \A p \in done : \E t \in term : t < p                                     \* never ready before the source terminates
+     /\ (term # {} => /\ q.fin = "ok" /\ Cardinality(done) = 1)                     \* ... and always eventually once it has (the executor returned)
+     /\ \A p \in done : \A r \in Polls(E) : r <= p                                 \* resolves once: nothing is polled after Ready
+     /\ \A p \in done : LET t == CHOOSE t \in term : \A t2 \in term : t <= t2 IN
+            IF E[t].k = "c" THEN E[p].k = "ready" /\ E[p].v = EncL(items)            \* all items in order
+            ELSE E[p].k = "err" /\ E[p].v = E[t].v                                   \* or the source's error
+
+\* ---------------------------------------------------------------- C09: observe_on / subscribe_on hand events to the scheduler
+\* tags: "observe_on" | "subscribe_on".  Source 1 is emitted by one thread; subscriber 1 records (event, thread).
+EmittedEvents(E, s) == LET x == SelectSeq(E, LAMBDA e : e.ev = "emitcall" /\ e.src = s) IN [i \in 1..Len(x) |-> <<x[i].k, x[i].v>>]
+DeliveredEvents(E, u) == LET x == SelectSeq(E, LAMBDA e : e.ev = "cbstart" /\ e.u = u) IN [i \in 1..Len(x) |-> <<x[i].k, x[i].v>>]
+RECURSIVE CutTerminal(_)
+CutTerminal(s) == IF s = <<>> THEN <<>> ELSE IF Head(s)[1] \in {"e", "c"} THEN <<Head(s)>> ELSE <<Head(s)>> \o CutTerminal(Tail(s))
+NthPos(E, name, u, n) == LET ps == { p \in Pos(E) : E[p].ev = name /\ (name = "emitcall" \/ E[p].u = u) } IN CHOOSE p \in ps : Cardinality({ r \in ps : r <= p }) = n
+C09ok(E, tags, q) ==
+  LET d == DeliveredEvents(E, 1)
+      s == CutTerminal(EmittedEvents(E, 1))
+      cbs == CbStarts(E, 1)
+      unsub == UnsubRetP(E, 1)
+      emitThreads == { E[p].t : p \in { p \in Pos(E) : E[p].ev = "emitcall" } }
+  IN (HasTag(tags, "observe_on") \/ HasTag(tags, "subscribe_on")) =>
+     /\ \A p1, p2 \in cbs : E[p1].t = E[p2].t                                        \* all on one thread ...
+     /\ \A p \in cbs : E[p].t # 0 /\ (HasTag(tags, "observe_on") => E[p].t \notin emitThreads)     \* ... that is neither the subscribing nor the emitting thread
+     /\ \A p1, p2 \in cbs : p1 < p2 => \E e \in (p1 + 1)..(p2 - 1) : E[e].ev = "cbend" /\ E[e].u = 1     \* never two callbacks at once
+     /\ (HasTag(tags, "cold3") \/ IsPrefixOf(d, s))                                      \* source order, nothing invented, terminal last
+     /\ (unsub = 0 /\ HasTag(tags, "observe_on") => d = s)                             \* nothing lost
+     /\ (HasTag(tags, "subscribe_on") /\ unsub = 0 => d = IF HasTag(tags, "cold3") THEN << <<"n", 1>>, <<"n", 2>>, <<"n", 3>>, <<"c", 0>> >> ELSE s)
+     \* events the source starts to emit after unsubscribe returned are not delivered (the i-th delivery carries the i-th emission)
+     /\ (unsub # 0 /\ HasTag(tags, "observe_on")) => \A i \in 1..Len(d) : NthPos(E, "cbstart", 1, i) > unsub => NthPos(E, "emitcall", 1, i) < unsub
+
+\* ---------------------------------------------------------------- C15: worker threads exit when the subscription ends
+\* runtime events: spawn(v = new thread) / exit (with the virtual time clk of every event).  period = the case's timer period (ms).
+SubEnd(E, u) == LET ps == { p \in Pos(E) : (E[p].ev = "cbend" /\ E[p].u = u /\ E[p].k \in {"e", "c"}) \/ (E[p].ev = "unsubret" /\ E[p].u = u) }
+                IN IF ps = {} THEN 0 ELSE CHOOSE p \in ps : \A r \in ps : p <= r
+C15ok(E, tags, q, period) ==
+  HasTag(tags, "workers") =>
+    LET e == SubEnd(E, 1) IN
+    e # 0 =>
+      /\ q.fin = "ok"                                                                 \* every thread started for the subscription has exited
+      \* ... within one timer period of its end (threads of the harness itself - main and those that announce `hthread` - do not count)
+      /\ \A p \in Pos(E) : (E[p].ev = "exit" /\ p > e /\ E[p].t # 0 /\ ~\E h \in Pos(E) : E[h].ev = "hthread" /\ E[h].t = E[p].t) => E[p].clk <= E[e].clk + period
+
+\* ---------------------------------------------------------------- C16: time-based sources and operators follow the (virtual) clock
+\* tags: "interval" | "timer" | "delay" | "timeout" | "subset" (sample / debounce); period = d in ms; clk of every event in ms
+C16ok(E, tags, q, d) ==
+  LET cbs == SelectSeq(E, LAMBDA e : e.ev = "cbstart" /\ e.u = 1)
+      t0 == IF SubRet(E, 1) # 0 THEN E[SubRet(E, 1)].clk ELSE 0
+      unsubClk == IF UnsubRetP(E, 1) # 0 THEN E[UnsubRetP(E, 1)].clk ELSE 1000000
+      emits == SelectSeq(E, LAMBDA e : e.ev = "emitcall" /\ e.src = 1)
+  IN /\ HasTag(tags, "interval") =>      \* 0,1,2,... at d, 2d, 3d, ... after subscription until unsubscribed
+          /\ \A i \in 1..Len(cbs) : cbs[i].k = "n" /\ cbs[i].v = i - 1 /\ cbs[i].clk = t0 + i * d
+          /\ \A n \in 1..20 : (t0 + n * d < unsubClk /\ t0 + n * d <= q.clk - d) => Len(cbs) >= n
+          /\ \A i \in 1..Len(cbs) : cbs[i].clk <= unsubClk
+     /\ HasTag(tags, "timer") =>         \* once at d, then completes
+          /\ (q.clk >= t0 + d /\ unsubClk > t0 + d) => (Len(cbs) = 2 /\ cbs[1].k = "n" /\ cbs[1].clk = t0 + d /\ cbs[2].k = "c" /\ cbs[2].clk = t0 + d)
+     /\ HasTag(tags, "delay") =>         \* each item d after it was received, order preserved
+          /\ Len(cbs) = Len(emits)
+          /\ \A i \in 1..Len(cbs) : cbs[i].k = emits[i].k /\ cbs[i].v = emits[i].v /\ (cbs[i].k = "n" => cbs[i].clk = emits[i].clk + d)
+     /\ HasTag(tags, "timeout") =>       \* items pass; TimedOut (-2) exactly when more than d elapses after an item with no successor and no completion
+          LET items == SelectSeq(cbs, LAMBDA e : e.k = "n")
+              term == SelectSeq(cbs, LAMBDA e : e.k # "n")
+              RECURSIVE FirstGap(_)
+              FirstGap(i) == IF i > Len(emits) THEN 0
+                             ELSE IF emits[i].k = "n" /\ ((i = Len(emits) /\ q.clk > emits[i].clk + d) \/ (i < Len(emits) /\ emits[i + 1].clk > emits[i].clk + d)) THEN i
+                             ELSE IF emits[i].k # "n" THEN 0 ELSE FirstGap(i + 1)
+              g == FirstGap(1)
+          IN IF g # 0
+             THEN /\ [i \in 1..Len(items) |-> items[i].v] = [i \in 1..g |-> emits[i].v]
+                  /\ Len(term) = 1 /\ term[1].k = "e" /\ term[1].v = -2 /\ term[1].clk = emits[g].clk + d
+             ELSE /\ [i \in 1..Len(cbs) |-> <<cbs[i].k, cbs[i].v>>] = [i \in 1..Len(emits) |-> <<emits[i].k, emits[i].v>>]
+     /\ HasTag(tags, "subset") =>        \* sample / debounce: only items the source emitted, in source order, none twice
+          LET dv == Delivered(E, 1)
+              sv == Emitted(E, 1)
+              RECURSIVE IsSubseq(_,_)
+              IsSubseq(a, b) == IF a = <<>> THEN TRUE ELSE IF b = <<>> THEN FALSE ELSE IF Head(a) = Head(b) THEN IsSubseq(Tail(a), Tail(b)) ELSE IsSubseq(a, Tail(b))
+          IN IsSubseq(dv, sv) /\ NoDup(dv)
+
 Judge(E, tags, q) ==
   LET fin == q.fin IN
-  [C08 |-> IF ~(HasTag(tags, "queue") \/ HasTag(tags, "default_queue")) \/ C08ok(E, tags, q) THEN "ok" ELSE "bad",
+  [C09 |-> IF C09ok(E, tags, q) THEN "ok" ELSE "bad", C15 |-> IF C15ok(E, tags, q, q.period) THEN "ok" ELSE "bad",
+   C16 |-> IF C16ok(E, tags, q, q.period) THEN "ok" ELSE "bad", C18 |-> IF ~HasTag(tags, "tovec") \/ C18ok(E, q) THEN "ok" ELSE "bad",
+   C08 |-> IF ~(HasTag(tags, "queue") \/ HasTag(tags, "default_queue")) \/ C08ok(E, tags, q) THEN "ok" ELSE "bad",
    C19 |-> IF C19ok(E) THEN "ok" ELSE "bad", C05 |-> IF C05ok(E) THEN "ok" ELSE "bad",
    C11 |-> IF C11ok(E, tags, fin) THEN "ok" ELSE "bad", C12 |-> IF C12ok(E, tags, fin) THEN "ok" ELSE "bad",
    C07 |-> IF fin = "ok" \/ (HasTag(tags, "queue") /\ fin = "stuck" /\ q.nblocked = q.nparked) THEN "ok" ELSE "bad"]
